@@ -246,6 +246,26 @@ impl Model {
         }
     }
 
+    /// A call that must be refused because of its argument (unrepresentable name / comment). Whether the
+    /// refusal leaves the writer untouched or has already closed the previous entry is not documented:
+    /// both are modelled, so the end claim survives such a refusal.
+    fn refused_call(&mut self) -> Expect {
+        match self.st.clone() {
+            St::Finished => Expect::Err,
+            St::ExtraLocal { buf, large, .. } | St::ExtraCentral { buf, large } => {
+                if extra_valid(&buf, large) {
+                    // pending extra data either still open or already ended
+                    self.st = St::Unspecified;
+                }
+                Expect::Err
+            }
+            _ => {
+                self.st = St::JustClosed;
+                Expect::Err
+            }
+        }
+    }
+
     fn step(&mut self, c: &Call) -> Expect {
         if self.st == St::Unspecified {
             return Expect::Either;
@@ -409,29 +429,11 @@ impl Model {
                 self.st = St::AfterRaw;
                 Expect::Ok
             }
-            Call::StartLong(..) => {
-                // must be refused; whether the refusal leaves the writer untouched or has already
-                // closed the previous entry is not documented: both are modelled
-                match self.st.clone() {
-                    St::Finished => Expect::Err,
-                    St::ExtraLocal { buf, large, .. } | St::ExtraCentral { buf, large } => {
-                        if extra_valid(&buf, large) {
-                            // pending extra data either still open or already ended
-                            self.st = St::Unspecified;
-                        }
-                        Expect::Err
-                    }
-                    _ => {
-                        self.st = St::JustClosed;
-                        Expect::Err
-                    }
-                }
-            }
+            Call::StartLong(..) => self.refused_call(),
             Call::Finish => {
                 if self.comment.len() > 65535 {
-                    // must be refused; what state the writer is left in is not documented
-                    self.st = St::Unspecified;
-                    return Expect::Err;
+                    // must be refused; a caller may then set a shorter comment and finish again
+                    return self.refused_call();
                 }
                 let e = self.close_current();
                 if e != Expect::Ok {
@@ -719,7 +721,7 @@ pub fn run(ctx: &mut Ctx) {
         &|s: &Seq, info: &mut Info| Verdict::from_result(check_sequence(&s.0, info)),
     );
     ctx.exhaustive_all = true;
-    let n = ctx.q(30000, 400000);
+    let n = ctx.q(150000, 1500000);
     ctx.explore::<Seq>(
         "random",
         n,
